@@ -53,6 +53,9 @@ def payload_ty(ty):
     return None
 
 
+THRESHOLDS = [0, 1, 2, 7, 8, 15, 16, 31, 32, 63, 64, 127, 128, 255, 256, 1500, 4096, 32767, 32768, 65534, 65535, 65536, 131070, 1 << 20, 1 << 21,
+              (1 << 28), (1 << 31) - 1, (1 << 32) - 1, 1 << 32, 1 << 33, 1 << 34, 1 << 40, (1 << 63) - 1, (1 << 64) - 1]
+NEG_THRESHOLDS = [0, -1, -128, -32768, -(1 << 31), -(1 << 63)]
 EMPTY = (1, 0)     # "no payload": the Option/Result value is None/Err on this path
 
 
@@ -86,7 +89,7 @@ def clip(iv, rng):
 
 
 class State:
-    __slots__ = ('iv', 'org', 'facts', 'cmp', 'dead', 'mem')
+    __slots__ = ('iv', 'org', 'facts', 'cmp', 'dead', 'mem', 'aff')
 
     def __init__(self):
         self.iv = {}        # key -> interval ; keys: ('l', n) int local | ('p', n) payload of Option/Result local | ('t', n, i) tuple field
@@ -94,6 +97,7 @@ class State:
         self.facts = set()  # (keyA, op, keyB) with op in '<', '<='
         self.cmp = {}       # bool local -> (op, left operand descriptor, right operand descriptor, negated)
         self.mem = set()    # keys holding sizes of in-memory objects (len()/length() results and their sums): assumption A-mem
+        self.aff = {}       # key -> (kind, source key, constant): value = source + c ('add') or source & c ('and'), source unmodified since
         self.dead = False
 
     def copy(self):
@@ -103,6 +107,7 @@ class State:
         s.facts = set(self.facts)
         s.cmp = dict(self.cmp)
         s.mem = set(self.mem)
+        s.aff = dict(self.aff)
         s.dead = self.dead
         return s
 
@@ -114,6 +119,7 @@ class State:
         if self.dead:
             self.iv, self.org, self.facts, self.cmp, self.dead = dict(o.iv), dict(o.org), set(o.facts), dict(o.cmp), False
             self.mem = set(o.mem)
+            self.aff = dict(o.aff)
             return True
         changed = False
         for k in list(self.iv.keys()):
@@ -125,8 +131,9 @@ class State:
             j = join(a, b)
             if j != a:
                 if widen:
-                    lo = a[0] if j[0] >= a[0] else -(1 << 130)
-                    hi = a[1] if j[1] <= a[1] else (1 << 130)
+                    # widening with thresholds (bounds of the machine integer types and a few protocol constants)
+                    lo = a[0] if j[0] >= a[0] else max([t for t in NEG_THRESHOLDS if t <= j[0]], default=-(1 << 130))
+                    hi = a[1] if j[1] <= a[1] else min([t for t in THRESHOLDS if t >= j[1]], default=(1 << 130))
                     j = (lo, hi)
                     if ranges is not None:
                         r = ranges(k)
@@ -141,6 +148,10 @@ class State:
         for k in list(self.org.keys()):
             if o.org.get(k) != self.org[k]:
                 del self.org[k]
+                changed = True
+        for k in list(self.aff.keys()):
+            if o.aff.get(k) != self.aff[k]:
+                del self.aff[k]
                 changed = True
         nm = self.mem & o.mem
         if nm != self.mem:
@@ -464,6 +475,8 @@ class Interp:
         st.cmp.pop(l, None)
         if st.mem:
             st.mem = {k for k in st.mem if not (k[0] in ('l', 'p', 't') and k[1] == l)}
+        if st.aff:
+            st.aff = {k: v for k, v in st.aff.items() if not self._mentions(k, l) and not self._mentions(v[1], l)}
         for x in [x for x, v in st.org.items() if v[0] in ('l', 'cell') and l in v[1:]]:
             del st.org[x]
         if st.facts:
@@ -502,6 +515,15 @@ class Interp:
                 st.dead = True
                 return
             st.iv[k] = nw
+            a = st.aff.get(k)
+            if a is not None:
+                if a[0] == 'add':
+                    self.refine(st, a[1], (nw[0] - a[2], nw[1] - a[2]))
+                elif a[0] == 'and' and nw[0] > 0 and a[2] >= 0:
+                    # (y & m) >= lo > 0  implies  y >= lowest set bit of m  (y unsigned)
+                    low = a[2] & -a[2]
+                    if low > 0:
+                        self.refine(st, a[1], (low, 1 << 130))
             if k[0] == 'l' and k[1] in st.org:
                 k = st.org[k[1]]
             else:
@@ -602,6 +624,8 @@ class Interp:
                     st.org[l] = sk
                 if sk is not None and sk in st.mem and dk is not None:
                     st.mem.add(dk)
+                if sk is not None and sk in st.aff and dk is not None:
+                    st.aff[dk] = st.aff[sk]
                 # moving a vector keeps its length cell
                 if not op['place']['p'] and rng is None:
                     lc = st.iv.get(('cell', 'len', op['place']['l']))
@@ -658,6 +682,10 @@ class Interp:
                 # the .0 field holds the wrapped result; after the assert it is the exact result
                 st.iv[('t', l, 0)] = res if res is not None else irng
                 st.iv[('t', l, 1)] = (0, 1)
+                if base in ('Add', 'Sub'):
+                    lk, rc = self.opkey(rv['l']), op_const(rv['r'])
+                    if lk is not None and lk[0] != 'c' and rc is not None:
+                        st.aff[('t', l, 0)] = ('add', lk, rc if base == 'Add' else -rc)
                 if base in ('Add', 'Mul') and irng is not None and irng[1] >= (1 << 63) and self.is_mem(st, rv['l'], small_ok=(base == 'Mul')) \
                         and self.is_mem(st, rv['r'], small_ok=True):
                     st.mem.add(('t', l, 0))
@@ -669,6 +697,13 @@ class Interp:
             res = self.arith(base, a, bb, rng or irng)
             if dk is not None:
                 st.iv[dk] = clip(res, rng or irng) if (rng or irng) else res
+                if base == 'BitAnd' and not pl['p']:
+                    lk, rc = self.opkey(rv['l']), None
+                    rv_r = self.eval_op(st, rv['r'])
+                    if rv_r is not None and rv_r[0] == rv_r[1]:
+                        rc = rv_r[0]
+                    if lk is not None and lk[0] != 'c' and rc is not None:
+                        st.aff[dk] = ('and', lk, rc)
                 if base == 'Rem' and bb is not None and bb[0] > 0 and a is not None and a[0] >= 0:
                     rk = self.opkey(rv['r'])
                     if rk is not None and rk[0] != 'c':
